@@ -346,9 +346,38 @@ impl<'l, F: AsFd + std::io::Write> Async<'l, F> {
             r matches TaskPoll::Ready(res) ==> (w_flush_returned(res) && !would_block(res))
                 || (res is Err && w_waker_registered(&*final(slf), Interest::WRITE, cx_waker(&*old(cx)))),
 //@ endslice
+//@ slice src/io.rs / impl AsyncWrite for Async<'_, F> / fn poll_close :: body props=C17 name=Async::poll_close
+//@ rw R21 * <<self.poll_flush(cx)>> => <<Self::poll_flush_body(slf, cx)>>
+//@ sig
+    /// S1 slice: whole body of `<Async as AsyncWrite>::poll_close`; R21: the receiver is `slf`, and the call of the trait
+    /// method `poll_flush` on it is the call of that method's slice.
+    fn poll_close_body(slf: &mut Async<'l, F>, cx: &mut Context<'_>) -> (r: TaskPoll<std::io::Result<()>>)
+//@ spec
+        ensures
+            // C17: closing flushes first -- Pending only after the flush said WouldBlock and the waker is stored with WRITE
+            // interest; Ready only with the flush's own result (nothing buffered is dropped silently) or a failed re-arm
+            r is Pending ==> w_waker_registered(&*final(slf), Interest::WRITE, cx_waker(&*old(cx)))
+                && exists|x: std::io::Result<()>| #[trigger] w_flush_returned(x) && would_block(x),
+            r matches TaskPoll::Ready(res) ==> (w_flush_returned(res) && !would_block(res))
+                || (res is Err && w_waker_registered(&*final(slf), Interest::WRITE, cx_waker(&*old(cx)))),
+//@ endslice
 }
 
 impl<'l, F: AsFd> Async<'l, F> {
+//@ slice src/io.rs / impl Async<'l, F> / fn into_inner :: body props=C17 name=Async::into_inner
+//@ rw R21 * <<self.fd.take()>> => <<slf.fd.take()>>
+//@ sig
+    /// S1 slice: whole body of Async::into_inner. R21 (here for a by-value `mut self`, which Verus does not support): the
+    /// receiver becomes `slf: &mut Async`; what is left of the adapter is dropped when the real function returns -- that is
+    /// the slice Async::drop (which restores the blocking mode through the raw fd kept in the dispatcher, not through `fd`).
+    fn into_inner_body(slf: &mut Async<'l, F>) -> (r: F)
+//@ spec
+        requires old(slf).fd is Some,
+        ensures
+            // C17: the object handed back is the adapter's own, and the adapter no longer owns one
+            Some(r) == old(slf).fd, final(slf).fd is None,
+            final(slf).dispatcher == old(slf).dispatcher, final(slf).inner == old(slf).inner, final(slf).was_nonblocking == old(slf).was_nonblocking,
+//@ endslice
 //@ slice src/io.rs / impl Async<'l, F> / fn readiness :: body props=C17 name=Async::readiness
 //@ rw R10 * <<self.dispatcher.borrow_mut()>> => <<disp_cell>>
 //@ sig
